@@ -569,7 +569,7 @@ impl Harness for C05 {
         let ktype = rng.pick(&KTYPES).to_string();
         let k = k_of(&ktype);
         // rare: one k-mer observed more than 65535 times (saturating count)
-        let big = rng.chance(1, if tier == Tier::Thorough { 20_000 } else { 6_000 });
+        let big = rng.chance(1, if tier == Tier::Thorough { 20_000 } else { 3_000 });
         // rare: more than 65536 reads (per-read indices wider than 16 bits)
         let many = !big && rng.chance(1, if tier == Tier::Thorough { 20_000 } else { 6_000 });
         // rarer still: more than 2^22 observations of one k-mer, i.e. in one bucket of one pass
@@ -658,7 +658,10 @@ impl Harness for C05 {
             let obs = reads[0].seq.iter().take_while(|b| **b == reads[0].seq[0]).count() + 1 - k;
             let near = *rng.pick(&[obs - 1, obs, obs + 1, obs + 2, obs + 40, 1, 2]);
             match rng.below(if huge { 2 } else { 3 }) {
-                0 => Summ::Count(rng.range(1, 3)),
+                // CountFilter's count saturates at 65535: thresholds are either small or safely above
+                // the true count (at most ~20 further observations can come from the tails), where
+                // "accepted iff observed at least n times" and the saturating count agree: rejected
+                0 => Summ::Count(*rng.pick(&[1usize, 2, 3, obs + 50, obs + 1000, 2 * obs, usize::MAX])),
                 1 => Summ::CountSet(near),
                 _ => Summ::Record(near),
             }
